@@ -1,5 +1,6 @@
 import YtkModel.Wire
 import YtkModel.Overlay
+import YtkDriver.HeapScript
 open Lean
 
 namespace Ytk.C06
@@ -93,6 +94,9 @@ def handle : Wire.Handler := fun op a => do
       s := s'
       out := out.push j
     pure (.arr out)
+  | "heapScript" =>
+    -- a script of heap-level operations on an explicit heap (YtkDriver/HeapScript.lean)
+    HeapScript.run a
   | _ => throw s!"C06: unknown op {op}"
 
 end Ytk.C06
